@@ -299,6 +299,8 @@ type VC struct {
 	declared map[string]Sort
 	asserts  []string
 	counter  map[string]int
+	bases    [][]string // per assertion: heap base names it mentions (computed lazily)
+	mu       sync.Mutex
 }
 
 func newVC() *VC {
@@ -602,4 +604,112 @@ func smtIntValue(s string) (int64, bool) {
 		v = -v
 	}
 	return v, true
+}
+
+
+var heapPrefixes = []string{"H$", "A$", "E$", "C$", "GH$", "M$", "MC$", "G$", "KM$", "CH$"}
+
+// heapBases extracts the heap base names (without version suffix) of a formula.
+func heapBases(f string) []string {
+	var out []string
+	seen := map[string]bool{}
+	i := 0
+	for i < len(f) {
+		c := f[i]
+		if c == '(' || c == ')' || c == ' ' || c == '\n' {
+			i++
+			continue
+		}
+		j := i
+		for j < len(f) && f[j] != '(' && f[j] != ')' && f[j] != ' ' && f[j] != '\n' {
+			j++
+		}
+		tok := f[i:j]
+		i = j
+		isHeap := false
+		for _, p := range heapPrefixes {
+			if strings.HasPrefix(tok, p) {
+				isHeap = true
+				break
+			}
+		}
+		if !isHeap {
+			continue
+		}
+		if k := strings.Index(tok, "!"); k >= 0 {
+			tok = tok[:k]
+		}
+		if !seen[tok] {
+			seen[tok] = true
+			out = append(out, tok)
+		}
+	}
+	return out
+}
+
+// slicedQuery is like query but keeps only the assertions that mention no
+// heap, or a heap (transitively) related to the goal. Dropping hypotheses is
+// always sound; a goal not proved from the slice is retried on the full VC.
+func (vc *VC) slicedQuery(mark int, goal Term) (string, int) {
+	vc.mu.Lock()
+	for len(vc.bases) < mark {
+		vc.bases = append(vc.bases, heapBases(vc.asserts[len(vc.bases)]))
+	}
+	vc.mu.Unlock()
+	rel := map[string]bool{}
+	for _, b := range heapBases(goal.S) {
+		rel[b] = true
+	}
+	keep := make([]bool, mark)
+	for i := 0; i < mark; i++ {
+		if len(vc.bases[i]) == 0 {
+			keep[i] = true
+		}
+	}
+	changed := true
+	for changed {
+		changed = false
+		for i := 0; i < mark; i++ {
+			if keep[i] {
+				continue
+			}
+			hit := false
+			for _, b := range vc.bases[i] {
+				if rel[b] {
+					hit = true
+					break
+				}
+			}
+			if !hit {
+				continue
+			}
+			keep[i] = true
+			for _, b := range vc.bases[i] {
+				if !rel[b] {
+					rel[b] = true
+					changed = true
+				}
+			}
+		}
+	}
+	var b bytes.Buffer
+	b.WriteString("(set-logic ALL)\n")
+	for _, d := range vc.decls {
+		b.WriteString(d)
+		b.WriteByte('\n')
+	}
+	n := 0
+	for i := 0; i < mark; i++ {
+		if !keep[i] {
+			continue
+		}
+		n++
+		b.WriteString("(assert ")
+		b.WriteString(vc.asserts[i])
+		b.WriteString(")\n")
+	}
+	b.WriteString("(assert (not ")
+	b.WriteString(goal.S)
+	b.WriteString("))\n(check-sat)\n")
+	return b.String(), n
 }
